@@ -149,7 +149,7 @@ CLAIMED["C18"] = dict(
 CLAIMED["C19"] = dict(
     category="exploration",
     technique="bounded-exhaustive enumeration of functionals x pore geometries x sizes x solid potentials x temperatures x pressures x compositions x grids; every reported derivative is compared with Richardson differences of re-solved neighbouring profiles along every bulk direction (p, x, T)",
-    text="For every pore of the lattice (5 functionals incl. a binary mixture at two compositions x slit/cylinder/sphere x 3 sizes x LJ93/Steele/hard wall/SimpleLJ93 x 3 reduced temperatures x 2 vapour pressures x 2 grids) the profile is re-solved at p +- h, +- 2h, x +- h, +- 2h and T +- dT, +- 2dT and the Richardson differences are compared with what the solved profile reports: dOmega = -sum_i N_i dmu_i along every direction (Gibbs adsorption), dN_i = sum_k dn_dmu[k,i] dmu_k, dn_dp, dn_dt, the linear system and mole-fraction average behind the (partial molar) enthalpy of adsorption, N_i/(x_i p) at 1e-4 p against the Henry coefficients and the temperature derivative of ln(K_H T) against the ideal-gas enthalpy of adsorption. Planar interfaces: 5 functionals x 6 reduced temperatures x 4 box lengths x 3 grid sizes: surface tension independent of box and grid up to a second-order discretisation band, strictly decreasing with T, below 20 % of its 0.95 Tc value at 0.99 Tc, pDGT within 10 %. The quick tier contains a heterosegmented functional (gc-PC-SAFT hexane) in all three geometries.",
+    text="For every pore of the lattice (5 functionals incl. a binary mixture at two compositions x slit/cylinder/sphere x 3 sizes x LJ93/Steele/hard wall/SimpleLJ93 x 3 reduced temperatures x 2 vapour pressures x 2 grids) the profile is re-solved at p +- h, +- 2h, x +- h, +- 2h and T +- dT, +- 2dT and the Richardson differences are compared with what the solved profile reports: dOmega = -sum_i N_i dmu_i along every direction (Gibbs adsorption), dN_i = sum_k dn_dmu[k,i] dmu_k, dn_dp, dn_dt, the linear system and mole-fraction average behind the (partial molar) enthalpy of adsorption, N_i/(x_i p) at 1e-4 p against the Henry coefficients and the temperature derivative of ln(K_H T) against the ideal-gas enthalpy of adsorption. Planar interfaces: 5 functionals x 6 reduced temperatures x 4 box lengths x 3 grid sizes: surface tension independent of box and grid up to a second-order discretisation band, strictly decreasing with T, below 20 % of its 0.95 Tc value at 0.99 Tc, pDGT within 10 %. The quick tier contains a heterosegmented functional (gc-PC-SAFT hexane) in all three geometries. Adsorption and desorption isotherm drivers on nested 3/5/9-point pressure grids: every point equals the stand-alone pore calculation, shared pressures of different grids agree, adsorption = desorption above T_c, N increases and Omega decreases with pressure.",
     design_ref="§5 C19",
 )
 
